@@ -77,18 +77,20 @@ func renderKeys(ks []pkKey) string {
 type pkLeaf struct {
 	expr string // expression valid INSIDE the package
 	dot  string // the same cell as a dot path used as an operand of a builtin, also valid inside the package
+	acc  string // the same cell through the colon accessor (:key hash)
 	cell *int64
 }
 
-func keyLeaves(base string, dotBase string, ks []pkKey, out *[]pkLeaf) {
+func keyLeaves(base string, dotBase string, accBase string, ks []pkKey, out *[]pkLeaf) {
 	for i := range ks {
 		k := &ks[i]
 		e := "(hget " + base + " " + k.Name + ":)"
 		d := dotBase + "." + k.Name
+		a := "(:" + k.Name + " " + accBase + ")"
 		if k.Hash {
-			keyLeaves(e, d, k.Sub, out)
+			keyLeaves(e, d, a, k.Sub, out)
 		} else {
-			*out = append(*out, pkLeaf{expr: e, dot: "(+ 0 " + d + ")", cell: &k.I})
+			*out = append(*out, pkLeaf{expr: e, dot: "(+ 0 " + d + ")", acc: a, cell: &k.I})
 		}
 	}
 }
@@ -99,9 +101,9 @@ func (n *pkNode) leaves() []pkLeaf {
 		m := &n.Members[i]
 		switch m.Kind {
 		case "val":
-			out = append(out, pkLeaf{expr: m.Name, dot: "(+ 0 " + m.Name + ")", cell: &m.I})
+			out = append(out, pkLeaf{expr: m.Name, dot: "(+ 0 " + m.Name + ")", acc: m.Name, cell: &m.I})
 		case "hash":
-			keyLeaves(m.Name, m.Name, m.Keys, &out)
+			keyLeaves(m.Name, m.Name, m.Name, m.Keys, &out)
 		}
 	}
 	return out
@@ -136,6 +138,12 @@ func (n *pkNode) render() string {
 	b.WriteString(" (defn DumpDot [] (list 0")
 	for _, l := range n.leaves() {
 		b.WriteString(" " + l.dot)
+	}
+	b.WriteString("))")
+	// and through the colon accessor, a builder that evaluates its hash argument itself
+	b.WriteString(" (defn DumpAcc [] (list 0")
+	for _, l := range n.leaves() {
+		b.WriteString(" " + l.acc)
 	}
 	b.WriteString(")))")
 	return b.String()
@@ -335,7 +343,7 @@ func checkPackages(c pkCase) *ev.Failure {
 			if bad != nil {
 				return
 			}
-			for _, dumpFn := range []string{"Dump", "DumpDot"} {
+			for _, dumpFn := range []string{"Dump", "DumpDot", "DumpAcc"} {
 				if bad != nil {
 					return
 				}
@@ -604,7 +612,7 @@ func genPkCase(t *rapid.T) (pkCase, []string, bool) {
 func TestC18(t *testing.T) {
 	p := begin(t, "C18")
 	r := p.r
-	r.SetRule("case = a generated tree of packages (nesting depth <=3; packages stored under capitalised and lower-case names) whose members are values, functions that use a (mostly private) value of their package, hashes with nested hashes, and nested packages, under names with upper-case (ASCII and non-ASCII), lower-case and non-letter first runes; followed by 2-10 accesses from outside along random paths to a value, function or hash key: reads as operand of a builtin, calls through the dot path, reads on the right-hand side of def / set / infix :=, assignments by infix =, (set ..), prefix (= ..), each also through an alias bound to the package value (def, let, function parameter), through a name bound to the dot path of a nested package, and through a package stored in an outside hash. Oracle: visibility model (every hop naming a non-package member must be capitalised; packages are traversed under any name; non-letter names and lower-case KEYS inside an exported hash: either) -> allowed accesses must succeed with the model's value, denied ones must fail; after EVERY access every package's exported Dump and DumpDot functions (defined inside; they read all private members, Dump through hget, DumpDot through dot paths used as builtin operands) must return the model's state. Non-trivial: >=1 allowed and >=1 denied access, and depth >=2 or an alias route. Distinct by program text.")
+	r.SetRule("case = a generated tree of packages (nesting depth <=3; packages stored under capitalised and lower-case names) whose members are values, functions that use a (mostly private) value of their package, hashes with nested hashes, and nested packages, under names with upper-case (ASCII and non-ASCII), lower-case and non-letter first runes; followed by 2-10 accesses from outside along random paths to a value, function or hash key: reads as operand of a builtin, calls through the dot path, reads on the right-hand side of def / set / infix :=, assignments by infix =, (set ..), prefix (= ..), each also through an alias bound to the package value (def, let, function parameter), through a name bound to the dot path of a nested package, and through a package stored in an outside hash. Oracle: visibility model (every hop naming a non-package member must be capitalised; packages are traversed under any name; non-letter names and lower-case KEYS inside an exported hash: either) -> allowed accesses must succeed with the model's value, denied ones must fail; after EVERY access every package's exported Dump, DumpDot and DumpAcc functions (defined inside; they read all private members, Dump through hget, DumpDot through dot paths used as builtin operands, DumpAcc through the colon accessor) must return the model's state. Non-trivial: >=1 allowed and >=1 denied access, and depth >=2 or an alias route. Distinct by program text.")
 	r.Assume("keys inside an exported hash are data: capitalised keys must be readable; for lower-case keys either outcome is accepted", "names whose first rune is not a letter: either outcome is accepted", "a bare dot path evaluates to a symbol that is resolved on use, so every read is observed through a use ((+ 0 path))")
 	p.rapidSub("program", ev.Scale(2000, 300000), func(t *rapid.T) {
 		c, labels, nt := genPkCase(t)
